@@ -302,12 +302,14 @@ HN = ('a', 'b', 'c', 'd', 'x')
 
 def st_case():
     from hypothesis import strategies as st
-    spec = universe.st_spec(HN, 5, ('args', 'p'), ('kwargs', 'k'))
+    # annotated half of the time: plain inputs carry annotations without an upgraded counterpart
+    spec = st.one_of(universe.st_spec(HN, 5, ('args', 'p'), ('kwargs', 'k')),
+                     universe.st_spec(HN, 4, ('args', 'p'), ('kwargs', 'k'), ann_exprs=("'A1'", "'A2'")))
 
     @st.composite
     def build(draw):
         op = draw(st.sampled_from(['merge', 'merge', 'embed', 'mask', 'forwards']))
-        down = draw(st.integers(0, 3)) == 0
+        down = draw(st.integers(0, 2)) == 0
         if op == 'merge':
             specs = tuple(draw(st.lists(spec, min_size=1, max_size=4)))
             return (op, specs, {}, down)
